@@ -6,7 +6,7 @@ from gen import bytes_upto, rand_bounds
 LEVEL = "proof"
 
 
-def run(chk):
+def _run_once(chk):
     chk.rule = ("every byte string ≤ L over {00,0A,61,FF} × a bounds pool (positive, negative, open, repeated, reordered, formatted, with "
                 "fallbacks) exhaustively; random inputs up to 64 KiB+1 with random bounds; non-trivial = output non-empty or failure")
     run_corpus(chk)
@@ -58,3 +58,9 @@ def run(chk):
             chk.report_oracle("CLI: a large byte slice is not reproduced exactly",
                               {"argv": argv, "stdin_bytes": len(data), "stdin_sha": __import__("hashlib").sha1(data).hexdigest(), "exit": st, "stdout_bytes": len(out),
                                "expected_bytes": hi - lo + 1, "first_difference_at": next((i for i, (x, y) in enumerate(zip(out, data[lo - 1:hi])) if x != y), min(len(out), hi - lo + 1))})
+
+
+def run(chk):
+    # thorough = several independent rounds of the same generators (the PRNG keeps advancing), so that memory stays bounded
+    for _round in range(1 if chk.tier == "quick" else 6):
+        _run_once(chk)
